@@ -55,6 +55,9 @@ pub enum RunOp {
     Delete(u8),
     Echo(u8),
     EchoErr(u8),
+    /// the first regular file directly under t/ gets other bytes of the same length and keeps its modification time
+    /// (what `mv`, `cp -p`, `rsync -t` or unpacking an archive leave behind)
+    SwapSameSize,
 }
 
 #[derive(Clone, Debug, Serialize, Deserialize, PartialEq, Eq)]
@@ -72,6 +75,9 @@ pub struct Spec {
     pub lstrip: Option<Vec<u8>>,
     pub algs: Algs,
     pub run: Option<RunPlan>,
+    /// history (plain recording only): after the first recording the tree is changed by this script and recorded again
+    #[serde(default)]
+    pub again: Option<RunPlan>,
 }
 
 fn rel(path: &[u8]) -> String {
@@ -384,6 +390,10 @@ fn run_script(plan: &RunPlan) -> (Vec<String>, String, String) {
                 s.push_str(&format!("echo err{} 1>&2", n));
                 err.push_str(&format!("err{}\n", n));
             }
+            RunOp::SwapSameSize => s.push_str(
+                "for f in t/*; do if [ -f \"$f\" ] && [ ! -L \"$f\" ]; then n=$(wc -c < \"$f\"); touch -r \"$f\" .itv-stamp; \
+                 { head -c \"$n\" /dev/zero | tr '\\0' 'Z' > \"$f\"; } 2>/dev/null; touch -r .itv-stamp \"$f\"; rm -f .itv-stamp; break; fi; done",
+            ),
         }
     }
     s.push_str(&format!("; exit {}", plan.exit));
@@ -430,8 +440,8 @@ impl Property for C18 {
          empty directories; absolute and relative symlinks to files, directories, other symlinks and ancestor directories = cycles; never \
          dangling), path argument lists (root, '.', './t', sub-directories, single files, overlapping, non-normalised 't/./sub//'), \
          strip-prefix lists (none, matching, overlapping prefixes of different length, non-matching, empty), hash algorithms {default, \
-         sha256, sha512, both, unknown}; for in_toto_run an operation list (create, append, delete, echo to stdout/stderr, exit k) compiled to \
-         one sh -c command. Oracle: an independent walk (follows symlinks) with the harness' own SHA-256/512: every file reachable without entering a directory \
+         sha256, sha512, both, unknown}; for in_toto_run an operation list (create, append, delete, replace a file by other bytes of the same length keeping its modification time, echo to stdout/stderr, exit k) compiled to \
+         one sh -c command; for plain recording optionally a second recording of the same arguments in the same process after such an operation list changed the tree. Oracle: an independent walk (follows symlinks) with the harness' own SHA-256/512: every file reachable without entering a directory \
          twice on one descent path must be recorded with its true digest, and any further entry must be a cyclic duplicate (reachable when a \
          directory may be entered twice) with a true digest - the statement does not say where a cyclic descent stops; two different files under one key => Err; unknown \
          algorithm => Err; in_toto_run: materials = reference snapshot before, products = snapshot after, byproducts = constructed \
@@ -465,6 +475,7 @@ impl Property for C18 {
                 lstrip: Some(vec![3, 9]),
                 algs: Algs::Default,
                 run: None,
+                again: None,
             }
         });
         let op = prop_oneof![
@@ -473,15 +484,17 @@ impl Property for C18 {
             1 => any::<u8>().prop_map(RunOp::Delete),
             1 => (0u8..5).prop_map(RunOp::Echo),
             1 => (0u8..5).prop_map(RunOp::EchoErr),
+            2 => Just(RunOp::SwapSameSize),
         ];
         let general = (
             proptest::collection::vec(entry, 0..8),
             proptest::collection::vec(arg, 1..4),
             proptest::option::weighted(0.5, proptest::collection::vec(any::<u8>(), 0..3)),
             prop_oneof![3 => Just(Algs::Default), 2 => Just(Algs::Sha256), 1 => Just(Algs::Sha512), 2 => Just(Algs::Both), 1 => Just(Algs::Unknown)],
-            proptest::option::weighted(0.3, (proptest::collection::vec(op, 0..4), prop_oneof![3 => Just(0u8), 1 => any::<u8>()], any::<bool>()).prop_map(|(ops, exit, run_dir_dot)| RunPlan { ops, exit, run_dir_dot })),
+            proptest::option::weighted(0.3, (proptest::collection::vec(op.clone(), 0..4), prop_oneof![3 => Just(0u8), 1 => any::<u8>()], any::<bool>()).prop_map(|(ops, exit, run_dir_dot)| RunPlan { ops, exit, run_dir_dot })),
+            proptest::option::weighted(0.3, proptest::collection::vec(op, 1..3).prop_map(|ops| RunPlan { ops, exit: 0, run_dir_dot: false })),
         )
-            .prop_map(|(tree, args, lstrip, algs, run)| Spec { tree, args, lstrip, algs, run })
+            .prop_map(|(tree, args, lstrip, algs, run, again)| Spec { tree, args, lstrip, algs, run, again })
             .boxed();
         prop_oneof![12 => general, 1 => collision.boxed()].boxed()
     }
@@ -575,6 +588,24 @@ impl Property for C18 {
                     (Err(_), _) => "lib:err",
                 });
                 compare("record", lib, &before, &feat, &mut o);
+                if let Some(plan) = &spec.again {
+                    // history: change the tree, record the same arguments again in the same process
+                    let (cmd, _, _) = run_script(plan);
+                    let _ = std::process::Command::new(&cmd[0]).args(&cmd[1..]).stdout(std::process::Stdio::null()).stderr(std::process::Stdio::null()).status();
+                    if args.iter().all(|a| std::fs::metadata(case.join(clean(a))).is_ok()) {
+                        let after = reference(&case, &args, &lstrip, &spec.algs, &mut feat);
+                        if !matches!(after.strict, Err(RefErr::Dangling(_))) {
+                            o.class("recorded-again-after-change");
+                            if plan.ops.contains(&RunOp::SwapSameSize) && matches!((&before.strict, &after.strict), (Ok(a), Ok(b)) if a != b) {
+                                o.class("recorded-again-after-same-size-same-mtime-swap");
+                            }
+                            match guarded(|| record_artifacts(&arg_refs, alg_list.as_deref(), ls_refs.as_deref())) {
+                                Ok(r) => compare("record-again", r.map(|m| artifacts_from_lib(&m)).map_err(|e| e.to_string()), &after, &feat, &mut o),
+                                Err(pi) => o.fail(format!("C18/record/panic/{}", pi.message_class()), format!("{}:{} {}", pi.file, pi.line, pi.message), "a map or an error"),
+                            }
+                        }
+                    }
+                }
             }
             Some(plan) => {
                 o.class("in_toto_run");
